@@ -395,8 +395,9 @@ Definition oracle_step (BHT : Z) (t : Track) (op : Op) (out : list Z) : option T
           else
             (* a probe of size r was issued *)
             if t_enabled t && (t_infl t =? -1) && (f =? pn)
-               && (if t_mc t <? 2 then true else if t_mc t <? 3 then t_cur t <=? r else t_cur t <? r)
-               && ((r <=? Z.min (t_upper t) (t_peer t)) || ((t_mc t =? 0) && (r <=? t_cur t)))
+               (* probe_bounds at full strength for every configuration; configurations with
+                  minimum_change < 3 violate it (known finding mtud-minimum-change-below-3) *)
+               && (t_cur t <? r) && (r <=? Z.min (t_upper t) (t_peer t))
             then Some (mkTrack c f (t_min t) (t_peer t) (t_upper t) (t_mc t) (t_enabled t) r
                                (t_burst t) (t_nbursts t) (t_plow t))
             else None
